@@ -155,7 +155,8 @@ theorem waiting_means_parked {c : Cfg} {t0 : Nat} {s : St} (h : Inv c t0 s) (hna
 /-- The state of a fresh `Parallel` object is idle, for every schedule and every set of failing ids. -/
 theorem initial_idle (sched : List (List Nat)) (failIds : List Nat) :
     Idle ({ sched := sched, failIds := failIds } : St) :=
-  ⟨rfl, rfl, rfl, fun i => by simp [getTrk], fun i hi => by simp at hi, by simp⟩
+  ⟨rfl, rfl, rfl, fun i => by simp [getTrk], fun i hi => by simp at hi, by simp,
+    Or.inr (fun i hi => by simp at hi)⟩
 
 /-- F11 (known finding): with `pre_dispatch` evaluating to 0 nothing is dispatched and the call silently
 returns `[]` although it has 3 tasks. `return_correct` therefore requires `pre_dispatch ≥ 1` or `'all'`. -/
